@@ -156,6 +156,8 @@ def main(run, tier):
     # ---- E2: what is printed for each production (order and presence of its tokens and children)
     from . import printobl
     printobl.print_obligations(run, g, ('minify', 'minify+drop_semi'))
+    from . import sepobl
+    sepobl.sep_obligations(run, g, ('minify', 'minify+drop_semi'))
     # ---- bounded round trip
     importlib.import_module('calmjs.parse.parsers.es5').Parser()
     progs = roundtrip.programs(g, tier)
